@@ -141,13 +141,30 @@ def u_matrix_of(df):
     return u
 
 
-def fit_vine(df, vtype, trunc):
+def fit_vine(df, vtype, trunc, past=None):
+    """fit a vine; with `past` (a table) the instance is first fitted to that table with another truncation, sampled and asked for a
+    likelihood: the properties speak of the model after the (last) fit"""
     from copulas.multivariate import VineCopula
     k = df.shape[1]
     poison([(j, j) for j in range(1, k + 1)], 0.0)
     m = VineCopula(vtype)
+    if past is not None:
+        try:
+            m.fit(past, truncated=max(1, past.shape[1] - 1))
+            st = np.random.get_state()
+            m.sample(1)
+            np.random.set_state(st)
+            m.get_likelihood(np.full((1, past.shape[1]), 0.4))
+        except Exception:
+            pass
     m.fit(df, truncated=trunc)
     return m
+
+
+def past_table(rs, ncol, i):
+    """the table of an instance's previous life: another dependence pattern and, every second time, another number of columns"""
+    k = ncol if i % 2 else (ncol + 1 if ncol < 4 else ncol - 1)
+    return random_table(rs, max(2, k), PATTERNS[(i + 3) % 4], nrow=30)
 
 
 # ---- driving the tree builders with chosen dependence orderings ----------------------------------
